@@ -26,3 +26,35 @@ Ltac verdict n G FAR :=
   tryif (assert G by close_goal) then idtac "CASE" n "OK"
   else tryif (assert FAR by close_goal) then idtac "CASE" n "FAIL"
   else idtac "CASE" n "INCONCLUSIVE".
+
+(* goals about optional reflected data: None = dit must have raised ditException *)
+Definition okgoal (m : option rdata) (raised : bool) (obs tol : Q) : Prop :=
+  match m with
+  | None => raised = true
+  | Some r => raised = false /\ Rabs (rden r - Q2R obs) <= Q2R tol
+  end.
+Definition fargoal (m : option rdata) (raised : bool) (obs tol : Q) : Prop :=
+  match m with
+  | None => raised = false
+  | Some r => raised = true \/ Rabs (rden r - Q2R obs) >= 2 * Q2R tol
+  end.
+
+Ltac itv := first [ interval with (i_prec 80) | interval with (i_prec 160) ].
+Ltac close_ok := stage_all; ev; first [ reflexivity | exact I | split; [reflexivity | itv] | itv ].
+Ltac close_far := stage_all; ev; first [ reflexivity | exact I | left; reflexivity | right; itv | itv ].
+
+Ltac decide_case n G FAR :=
+  tryif assert_succeeds (assert G by close_ok) then idtac "CASE" n "OK"
+  else tryif assert_succeeds (assert FAR by close_far) then idtac "CASE" n "FAIL"
+  else idtac "CASE" n "INCONCLUSIVE".
+
+(* one-sided goals, for minima / maxima decided with an untrusted hint:
+   |min_i v_i - obs| <= tol  follows from  (forall i, v_i >= obs - tol) and (exists i, v_i <= obs + tol) *)
+Definition gegoal (m : option rdata) (obs tol : Q) : Prop :=
+  match m with None => False | Some r => rden r >= Q2R obs - Q2R tol end.
+Definition ltgoal (m : option rdata) (obs tol : Q) : Prop :=
+  match m with None => True | Some r => rden r <= Q2R obs - 2 * Q2R tol end.
+Definition legoal (m : option rdata) (obs tol : Q) : Prop :=
+  match m with None => False | Some r => rden r <= Q2R obs + Q2R tol end.
+Definition gtgoal (m : option rdata) (obs tol : Q) : Prop :=
+  match m with None => True | Some r => rden r >= Q2R obs + 2 * Q2R tol end.
